@@ -437,11 +437,11 @@ def run(ctx, rep) -> None:
     rep.rule("C04.4", "an empty masked gradient list skips the group before the step counter is touched")
     rep.rule("C04.5", "the gradient selector gets one entry per block of every parameter on every path")
     mods = {"distributed_shampoo.distributed_shampoo", "distributed_shampoo.utils.shampoo_preconditioner_list", "distributed_shampoo.utils.shampoo_distributor", "distributed_shampoo.utils.shampoo_fsdp_distributor", "distributed_shampoo.utils.shampoo_fully_shard_distributor"}
-    typing_sites(ctx, rep, "C04.1", None, {"distributed_shampoo.distributed_shampoo": 10, "distributed_shampoo.utils.shampoo_preconditioner_list": 10, "distributed_shampoo.utils.shampoo_distributor": 2})
-    naming_beliefs(ctx, rep, "C04.1")
-    mask_completeness(ctx, rep, "C04.2")
-    writes_to_masked_only(ctx, rep, "C04.3")
-    empty_group_skips(ctx, rep, "C04.4")
-    selector_construction(ctx, rep, "C04.5")
+    rep.attempt("typing_sites", typing_sites, ctx, rep, "C04.1", None, {"distributed_shampoo.distributed_shampoo": 10, "distributed_shampoo.utils.shampoo_preconditioner_list": 10, "distributed_shampoo.utils.shampoo_distributor": 2})
+    rep.attempt("naming_beliefs", naming_beliefs, ctx, rep, "C04.1")
+    rep.attempt("mask_completeness", mask_completeness, ctx, rep, "C04.2")
+    rep.attempt("writes_to_masked_only", writes_to_masked_only, ctx, rep, "C04.3")
+    rep.attempt("empty_group_skips", empty_group_skips, ctx, rep, "C04.4")
+    rep.attempt("selector_construction", selector_construction, ctx, rep, "C04.5")
     rep.assume("seeds of the index-space typing (sv/spaces.py): _global_blocked_params:G, _distributor_selector:G->L, _global_grad_selector:G->GM, _local_grad_selector:L->LM, _merge_and_block_gradients():LM")
     rep.assume("bit-for-bit preservation of untouched tensors follows from C04.3 plus torch semantics (not decided here)")
